@@ -188,6 +188,10 @@ func genHistory(r *rng.R, nops int, exhaustiveSmall bool) thCase {
 		resItem(l, err)
 		l.Close()
 		opsDesc = append(opsDesc, fmt.Sprintf("change(%x,slot=%s,off=%v,ty=%x,%x)=%v", a[18:], slot.Hex(), off, ty[31:], v, err))
+		if err == nil && off != nil && (!off.IsUint64() || off.Uint64() > 31) {
+			// C11: "a change for ... an out-of-range offset is refused without modifying anything"
+			cs.Oracle = append(cs.Oracle, fmt.Sprintf("change journaled at the out-of-range offset %v (slot=%s type=%x) was accepted instead of refused", off, slot.Hex(), ty[31:]))
+		}
 		if err == nil {
 			cs.Changes++
 		}
